@@ -17,7 +17,7 @@ ASSUMPTIONS = ['documented grammar [[fill][+|-](<|>|^)][width][:ansi]; fill/flag
                'format()/to_str(spec) returns a string: it is compared with the rendering of "pad a copy, then '
                'apply_formatting" - equal string, or display-identical on the reference terminal for well-formed settings']
 
-CFG = gen.Cfg(esc=False, odd=0.1, invalid=False, incomplete=False, max_ops=3, rich=True, min_text=0, max_text=8)
+CFG = gen.Cfg(esc=True, odd=0.1, invalid=False, incomplete=False, max_ops=3, rich=True, min_text=0, max_text=8)
 FILLS = [' ', '*', '0', ':', '+', '-', '<', '5', 'é']
 
 
@@ -249,6 +249,11 @@ def eval_spec_semantics(case):
     ps = parses(spec)
     if len(ps) != 1 or not wellformed(per):
         o.skipped = 'multi-parse-or-not-wellformed'
+        return o
+    if '\x1b' in t or '\x1b' in (fill or ''):
+        # the displayed text is read off the reference terminal: escape bytes inside the text itself would be
+        # interpreted there together with the rendering's own sequences (the `spec` sub-check covers such texts)
+        o.skipped = 'esc-in-text'
         return o
     extend = flag != '-'
     etext, eper = expected_pad(t, per, align, width, fill or ' ', extend)
